@@ -320,7 +320,8 @@ impl World {
             World::from_genesis(seed, net, mult, pool, denom, 1u128 << 100)
         } else {
             let height = match net {
-                NetID::Mainnet => *r.pick(&[1_000_000u64, 1_047_998, 1_048_010, 1_199_998, 2_000_000, 978_400, 940_000, 100_000]),
+                // incl. a few blocks below every mainnet activation height, so that histories cross them with real blocks
+                NetID::Mainnet => *r.pick(&[1_000_000u64, 1_047_998, 1_048_010, 1_199_998, 2_000_000, 978_400, 940_000, 100_000, 829_993, 829_997, 179_995, 949_995, 978_387, 42_696, 899_996, 499_996]),
                 NetID::Testnet => *r.pick(&[600u64, 1_000_000, 199_998, 2_000, 10, 400]),
                 _ => *r.pick(&[1u64, 5, 199_997, 1_000, 950_010, 4_000_000]),
             };
